@@ -31,8 +31,9 @@ PROPS = {
     "C05": dict(
         units={"quick": [(BROKER, "channel"), (BROKER, "chan_handlers")], "thorough": [(BROKER, "channel_t"), (BROKER, "chan_handlers")]},
         level="proof",
-        timeout={"quick": 600, "thorough": 1500},
-        jobs={"quick": 12, "thorough": 8},
+        timeout={"quick": 1500, "thorough": 2400},
+        jobs={"quick": 6, "thorough": 6},
+        par_units=2,
         mem_gb=14,
         min_harnesses={"quick": 7, "thorough": 8},
         functions=[
@@ -57,12 +58,12 @@ PROPS = {
         design_ref="DESIGN.md section 3 (C05)",
     ),
     "C09": dict(
-        units={"quick": [(BROKER, "conn_id")], "thorough": [(BROKER, "conn_id_t")]},
+        units={"quick": [(BROKER, "conn_id"), (BROKER, "shutdown@2")], "thorough": [(BROKER, "conn_id_t"), (BROKER, "shutdown@2")]},
         level="proof",
         timeout={"quick": 600, "thorough": 1500},
         jobs={"quick": 12, "thorough": 8},
         mem_gb=14,
-        min_harnesses={"quick": 5, "thorough": 7},
+        min_harnesses={"quick": 8, "thorough": 11},
         functions=["aldrin_broker::conn_id::Inner::{acquire,release}"],
         bounds="arbitrary Inner state with next: any usize and <= 3 free ids (distinct, < next); one acquire or release",
         outside="free lists longer than 3; everything about connection teardown that is not listed under functions_encoded",
@@ -95,22 +96,22 @@ PROPS = {
         design_ref="DESIGN.md section 3 (C12)",
     ),
     "C01": dict(
-        units={"quick": [(CORE, "buf_ext"), (CORE, "leaf_rt"), (CORE, "shapes_basic")],
-               "thorough": [(CORE, "buf_ext"), (CORE, "leaf_rt"), (CORE, "leaf_rt_t"), (CORE, "shapes_basic")]},
+        units={"quick": [(CORE, "buf_ext"), (CORE, "leaf_rt"), (CORE, "shapes_basic"), (CORE, "shapes_keys"), (CORE, "shapes_struct")],
+               "thorough": [(CORE, "buf_ext"), (CORE, "leaf_rt"), (CORE, "leaf_rt_t"), (CORE, "shapes_basic"), (CORE, "shapes_keys"), (CORE, "shapes_struct")]},
         level="proof",
         timeout={"quick": 900, "thorough": 1800},
         jobs={"quick": 14, "thorough": 14},
         par_units=4,
         mem_gb=14,
         min_harnesses={"quick": 20, "thorough": 22},
-        functions=[],
-        bounds="",
-        outside="",
+        functions=['aldrin_core::buf_ext::{BufMutExt::put_varint_*,ValueBufExt::try_get_varint_*,try_skip_varint_le,zigzag_*}', 'aldrin_core::SerializedValue::serialize / Serializer::{serialize_*} for every scalar kind, string, Some, Enum, Vec1/2, Bytes1/2, Map1/2, Set1/2 (all ten key tags), Struct1/2', 'aldrin_core::Deserializer::{new,skip,len,split_off_serialized_value,deserialize_*}, impl Deserialize<tags::Value> for Value (leaf kinds, Some, Enum, Vec1, Bytes1/2, empty Vec2/struct), Vec2/Map2/Set2/Struct2Deserializer as units, KeyTagImpl::{serialize_key,deserialize_key,skip}', 'aldrin_core::SerializedValueSlice::{deserialize_as,kind} (trailing data)'],
+        bounds='scalars: full width (all 2^64 values, every NaN payload); strings <= 3 bytes; containers: <= 2 elements with u8 leaves, one level of container-in-container; ids/keys: one-byte varint form as literals {3,7,250,251,253}, full-width form symbolic; start depths 0, 32-levels, 33-levels (concrete)',
+        outside='Some/Enum/non-empty Vec/map/set/struct arms of `impl Serialize for &Value` and the Vec2/map/set/populated-struct arms of `Value::deserialize` (heap discriminants / std HashMap, DESIGN 8.1); keyed V2 containers and Vec2-in-Vec2 through the dispatcher (unit-driven instead); > 2 elements; arbitrary depths between the boundaries; composition over nesting levels (paper induction)',
         stubs=[],
         assumptions=ASSUME_KANI,
         explanation="",
-        level_text="tbd",
-        level_note="tbd",
+        level_text='Solver proofs (CBMC, unwinding assertions on) that the real serializer and the real deserializer of aldrin-core agree with an independent byte-level reference encoding built in the harness, for all payload values of every scalar kind and for every container kind in both epochs on small shapes, that decoding consumes exactly the encoding, and that serializer and deserializer enforce the nesting limit at exactly 32 on each shape. Proof level within the stated bounds, modular over nesting.',
+        level_note='Bounded: shapes with literal framing and symbolic payload (DESIGN 8.1), <= 2 elements, concrete boundary depths. Trusted: rustc MIR opt level 3, Kani, CBMC, CaDiCaL, RandomState stub (fixed keys; the map stays empty), the reference encodings written in the harness. Not covered: see outside_bounds in the evidence; notably value.rs container arms of `impl Serialize for &Value`.',
     ),
     "C07": dict(
         units={"quick": [(CORE, "leaf_total"), (CORE, "shapes_basic"), (CORE, "shapes_keys"), (CORE, "shapes_struct")],
@@ -121,14 +122,14 @@ PROPS = {
         par_units=4,
         mem_gb=14,
         min_harnesses={"quick": 30, "thorough": 35},
-        functions=[],
-        bounds="",
-        outside="",
+        functions=['aldrin_core::Deserializer::{skip,len,split_off_serialized_value,peek_value_kind}', 'impl Deserialize<tags::Value> for Value (leaf kinds and V1 containers)', 'ValueKind::try_from(u8)', 'KeyTagImpl::skip for all ten key tags', 'Vec1/Map1/Set1/Struct1/Bytes1/Bytes2/Enum deserializers through the dispatcher; Vec2/Map2/Set2/Struct2Deserializer::{skip,deserialize*} as units'],
+        bounds='leaf kinds: arbitrary payload bytes, the listed truncation lengths of each kind; containers: the C01 shapes and every proper prefix of them; all 256 kind bytes for the kind conversion, literal invalid kinds {66,128,255} through the entry points',
+        outside='arbitrary byte strings beyond the shapes (a symbolic kind byte at a symbolic position is intractable, DESIGN 1); UnknownFields/UnknownVariant capture; allocation bounds; keyed V2 containers through the dispatcher',
         stubs=[],
         assumptions=ASSUME_KANI,
         explanation="",
-        level_text="tbd",
-        level_note="tbd",
+        level_text="Solver proofs that on every leaf kind (all payload bytes, listed truncations) and on the container shapes skip, len, split_off and full decoding accept the same inputs and consume the same number of bytes (UTF-8 validation aside), that every proper prefix of a well-formed encoding is rejected without panic, and that invalid kind bytes are reported as InvalidSerialization. Kani's panic/bounds/overflow checks give totality on the explored inputs.",
+        level_note='Bounded by the shapes (literal framing, symbolic payload). Trusted: rustc MIR opt level 3, Kani, CBMC, CaDiCaL, the 40-line reference length function in the harness. A genuine defect found by this check (KeyTagImpl::skip, N = 0) is fixed in /repo commit 7505504 and listed in known_findings.json.',
     ),
     "C13": dict(
         units={"quick": [(CORE, "convert_epoch"), (CORE, "convert_leaf"), (CORE, "convert_shapes"), (CORE, "convert_keys")],
@@ -139,81 +140,99 @@ PROPS = {
         par_units=4,
         mem_gb=14,
         min_harnesses={"quick": 20, "thorough": 25},
-        functions=[],
-        bounds="",
-        outside="",
+        functions=['aldrin_core::convert_value::{convert, Epoch::try_from, Convert::{new,convert,convert_* for every leaf kind, convert_bytes1, convert_bytes2_to_bytes1, convert_set1, convert_set2_to_set1, convert_vec1/vec2_to_vec1, convert_map1/map2_to_map1, convert_struct1/struct2_to_struct1, convert_some, convert_enum}}', 'KeyTagImpl::convert for all ten key tags'],
+        bounds='all (major, minor) pairs for the epoch mapping and conversion direction; leaf kinds: arbitrary payload and listed truncations; containers: <= 2 elements, u8 leaves, one nested container, segmented Bytes2, keys in short (literal) and full-width (symbolic) varint form incl. non-canonical input keys; concrete boundary depths',
+        outside='larger containers, arbitrary nesting compositions (paper induction), arbitrary malformed bytes beyond truncations and bad markers',
         stubs=[],
         assumptions=ASSUME_KANI,
         explanation="",
-        level_text="tbd",
-        level_note="tbd",
+        level_text='Solver proofs that conversion to the legacy epoch yields byte-for-byte the legacy reference encoding of the same value (built in the harness from the same symbolic payload) with no 1.20 container kind left, is idempotent, returns the input borrowed for same/newer epochs, fails exactly for versions outside 1.14..1.20 / truncated input / nesting beyond 32, and never panics.',
+        level_note='Bounded by the shapes. Trusted: rustc MIR opt level 3, Kani, CBMC, CaDiCaL, the reference encodings in the harness.',
     ),
     "C02": dict(
         units={"quick": [(BROKER, "serial_map"), (BROKER, "conn_state"), (BROKER, "calls@2")], "thorough": [(BROKER, "serial_map"), (BROKER, "conn_state"), (BROKER, "calls@2")]},
         level="other",
-        timeout={"quick": 1200, "thorough": 2400},
-        jobs={"quick": 14, "thorough": 14},
-        par_units=4,
+        timeout={"quick": 1500, "thorough": 2400},
+        jobs={"quick": 6, "thorough": 6},
+        par_units=2,
         mem_gb=14,
         min_harnesses={"quick": 2, "thorough": 2},
-        functions=[],
-        bounds="",
-        outside="",
+        functions=['aldrin_broker::serial_map::SerialMap::insert', 'aldrin_broker::broker::conn_state::ConnectionState::{add_call,remove_call,call_data}', 'aldrin_broker::broker::Broker::{call_function_reply, abort_function_call, abort_call}'],
+        bounds='SerialMap: arbitrary next (incl. wrap at u32::MAX), <= 2 live entries; handler lemmas: 2 connections, 1 object, 1 service, <= 2 pending calls in the listed concrete shapes (none / one / one aborted / two / aborted + active with reused caller serial; caller = owner or not), symbolic serials, caller serials, versions, peer liveness',
+        outside='histories longer than one step (paper induction over Inv_calls), call_function_impl and remove_service lemmas (not built), 3-4 connections, > 2 pending calls, dequeue orders',
         stubs=[],
         assumptions=ASSUME_KANI,
         explanation="tbd",
-        level_text="tbd",
-        level_note="tbd",
+        level_text="One-step solver lemmas on the real handlers: a reply is delivered only when it comes from the service owner for a pending, non-aborted call - exactly once, to the caller, under the caller's serial, result and payload unchanged - and otherwise dropped without touching other calls (including a stale reply to an aborted call whose caller serial has been reused); abort yields exactly one Aborted reply and is idempotent; SerialMap never hands out a serial in use. Exactly-once over histories is an induction on paper over these lemmas.",
+        level_note="Weaker than the property's quantifier: single transitions from small concrete-shape states. Trusted: model HashMap/HashSet (CAP 2), model ConnectionId, send-log digest, Kani, CBMC, CaDiCaL.",
     ),
     "C03": dict(
         units={"quick": [(BROKER, "reg_object@2"), (BROKER, "reg_service@2")], "thorough": [(BROKER, "reg_object@2"), (BROKER, "reg_service@2")]},
         level="other",
-        timeout={"quick": 1200, "thorough": 2400},
-        jobs={"quick": 14, "thorough": 14},
-        par_units=4,
+        timeout={"quick": 1500, "thorough": 2400},
+        jobs={"quick": 6, "thorough": 6},
+        par_units=2,
         mem_gb=14,
         min_harnesses={"quick": 2, "thorough": 2},
-        functions=[],
-        bounds="",
-        outside="",
+        functions=['aldrin_broker::broker::Broker::{create_object, destroy_object, create_service, destroy_service, query_service_version, remove_object, remove_service}'],
+        bounds='2 connections (peers possibly gone), <= 1-2 objects over a pool of 2 uuids, <= 2 services, symbolic owners/serials, requester known or unknown, fresh cookie from the RNG stub',
+        outside="histories (paper induction over Inv_reg), create_service2/query_service_info/subscribe/call 'succeed exactly while live' lemmas beyond query_service_version, disconnect cascade (see C09)",
         stubs=[],
         assumptions=ASSUME_KANI,
         explanation="tbd",
-        level_text="tbd",
-        level_note="tbd",
+        level_text="One-step solver lemmas: each create/destroy request is answered exactly once with exactly the result the registry state dictates, only the owner can destroy or add services, destroying an object removes all its services, the registry cross-reference invariant is preserved, and when the reply cannot be delivered nothing is left behind that the requester's teardown would not remove.",
+        level_note='Single transitions from small states. Trusted: model collections (CAP 2), model ConnectionId, send-log digest, RNG stub (fresh cookie assumed unused), Kani, CBMC, CaDiCaL.',
     ),
     "C04": dict(
         units={"quick": [(BROKER, "service"), (BROKER, "conn_state"), (BROKER, "events")], "thorough": [(BROKER, "service"), (BROKER, "conn_state"), (BROKER, "events")]},
         level="other",
-        timeout={"quick": 1200, "thorough": 2400},
-        jobs={"quick": 14, "thorough": 14},
-        par_units=4,
+        timeout={"quick": 1500, "thorough": 2400},
+        jobs={"quick": 6, "thorough": 6},
+        par_units=2,
         mem_gb=14,
         min_harnesses={"quick": 5, "thorough": 5},
-        functions=[],
-        bounds="",
-        outside="",
+        functions=['aldrin_broker::broker::service::Service::{subscribe_event,unsubscribe_event,subscribe_all_events,unsubscribe_all_events,subscribed_conn_ids}', 'aldrin_broker::broker::conn_state::ConnectionState::{subscribe_event,unsubscribe_event,is_subscribed_to_event,subscribe_all_events,unsubscribe_all_events,unsubscribe_all}', 'aldrin_broker::broker::Broker::{emit_event, subscribe_event, unsubscribe_event}'],
+        bounds="Service: arbitrary subscriber sets over 3 connections and 2 event ids satisfying 'no empty set stored' (inductive step); handlers: 3 connections, 1 service, arbitrary mirrored subscriptions over 2 event ids",
+        outside='histories (paper induction over the mirror invariant), subscribe_all/unsubscribe_all handlers, remove_*_subscription on disconnect, ServiceDestroyed fan-out, client-side bookkeeping',
         stubs=[],
         assumptions=ASSUME_KANI,
         explanation="tbd",
-        level_text="tbd",
-        level_note="tbd",
+        level_text='Solver proofs of the inductive step on the real Service/ConnectionState bookkeeping (first/last subscriber detection is exact and no empty subscriber set stays behind, so the next subscribe counts as first) and one-step lemmas on emit_event / subscribe_event / unsubscribe_event (fan-out to exactly the subscribed connections, owner told on 0<->1 transitions only).',
+        level_note='Component level: one step from an arbitrary invariant-satisfying state = histories of the component. Handler lemmas: single transitions. Trusted: model collections (CAP 3), model ConnectionId, send-log digest, Kani, CBMC, CaDiCaL.',
     ),
     "C10": dict(
-        units={"quick": [(BROKER, "bus_listener")], "thorough": [(BROKER, "bus_listener")]},
+        units={"quick": [(BROKER, "bus_listener"), (BROKER, "bus_events@2")], "thorough": [(BROKER, "bus_listener"), (BROKER, "bus_events@2")]},
         level="other",
-        timeout={"quick": 1200, "thorough": 2400},
-        jobs={"quick": 14, "thorough": 14},
-        par_units=4,
+        timeout={"quick": 1500, "thorough": 2400},
+        jobs={"quick": 6, "thorough": 6},
+        par_units=2,
         mem_gb=14,
         min_harnesses={"quick": 4, "thorough": 4},
-        functions=[],
-        bounds="",
-        outside="",
+        functions=['aldrin_core::BusListenerFilter::{matches_object,matches_service,matches_event}, BusListenerServiceFilter::matches, BusListenerScope::includes_*', 'aldrin_broker::bus_listener::BusListener::{add_filter,remove_filter,clear_filters,start,stop,matches_object,matches_service,matches_new_event,specific_objects,specific_services}'],
+        bounds='all six filter shapes over pools of 2-3 uuids; listeners with <= 2 filters in arbitrary slots, arbitrary scope; one operation from an arbitrary state satisfying the flag invariant',
+        outside='start_bus_listener / emit_bus_event handler lemmas (not built: out of memory at the state sizes needed), event ordering in process_loop_result, histories, client-side BusListener/Discoverer',
         stubs=[],
         assumptions=ASSUME_KANI,
         explanation="tbd",
-        level_text="tbd",
-        level_note="tbd",
+        level_text='Solver proofs that the filter predicate equals its specification, that add/remove/clear keep the two incrementally maintained flags equal to their definition (so the fast paths stay valid for filter histories of any length), and that under this invariant the specific-object/specific-service fast paths enumerate exactly what the scan path matches, each once.',
+        level_note='Component level only. Trusted: model HashSet (CAP 3), Kani, CBMC, CaDiCaL. Per-connection de-duplication in emit_bus_event is NOT covered.',
+    ),
+    "C11": dict(
+        units={"quick": [(BROKER, "gates@2"), (BROKER, "wrongdir@2"), (BROKER, "channel")],
+               "thorough": [(BROKER, "gates@2"), (BROKER, "wrongdir@2"), (BROKER, "channel_t"), (BROKER, "chan_handlers"), (BROKER, "reg_object@2"), (BROKER, "reg_service@2"), (BROKER, "calls@2"), (BROKER, "events"), (BROKER, "bus_events@2")]},
+        level="other",
+        timeout={"quick": 900, "thorough": 2400},
+        jobs={"quick": 10, "thorough": 6},
+        par_units=2,
+        mem_gb=14,
+        min_harnesses={"quick": 25, "thorough": 30},
+        functions=["aldrin_broker::broker::Broker::handle_message (dispatch, wrong-direction arm)", "every gated handler (version gate, unknown sender)", "aldrin_broker::broker::channel::Channel (illegal-to-call arms unreachable under the broker's preconditions)", "thorough: the handler lemmas of C02-C05, C10 with arbitrary (stale, foreign, unknown) cookies and serials"],
+        bounds="one message from one connection on a small state: every field of the message symbolic (cookies from live and never-issued pools, serials arbitrary), sender known or unknown, any negotiated version",
+        outside="sequences of abusive messages (paper induction over the same invariants), Message::Shutdown (connection task), garbage payload bytes, interleaved connects/disconnects, the introspection database, conn.rs",
+        stubs=[],
+        assumptions=ASSUME_KANI,
+        explanation="One-step lemmas: Kani's panic/overflow/bounds checks show that no expect(\"inconsistent state\"), unreachable!(), unwrap() or debug_assert! site of the exercised handlers is reachable from the small invariant-satisfying states, and the result is Ok (answered or ignored) or Err (close this connection) with the stated effect on the state.",
+        level_text="One-step solver lemmas: messages that only the broker may send close the sending connection and change nothing; every gated handler ignores unknown senders and refuses too-new messages without side effects; the channel state machine's unreachable!() arms cannot be reached under the preconditions the broker establishes; in the thorough tier every handler lemma of C02-C05/C10 is run with arbitrary stale/foreign ids. 'Does not panic' = Kani's checks on all explored paths.",
+        level_note="Single transitions from small states; sequences are an induction on paper. Trusted: model collections, model ConnectionId, send-log digest, Kani, CBMC, CaDiCaL. Not covered: conn.rs (e.g. a payload conversion failure terminating the receiving connection), the introspection feature.",
     ),
 }
